@@ -6,10 +6,10 @@ that one element, and the root's `fq_name()` is `/`.
 `addressable` is the restriction under which the statement is true of the code as it is
 (KF-C13-a/b): the path grammar has no escape for a backslash, so
   * an element under a Dict/Compound whose name is empty has no spelling at all,
-  * a name in which a backslash is directly followed by `.` or `]` is emitted unescaped and
-    read back without the backslash,
   * a name ending in a backslash swallows the `/` that follows it, so nothing *below* such an
     element can be addressed (the element itself can).
+(A backslash directly before `.` or `]` inside a name used to be a third case; since b49b3eb
+`fq_name` doubles that backslash and the name is read back unchanged.)
 -/
 import Flatland.Path
 namespace Flatland.C13.Spec
@@ -26,11 +26,6 @@ def Inverse (root : Node) : Prop :=
   fqName root [] = ['/'] ∧
   ∀ start pos, (root.get? start).isSome → (root.get? pos).isSome → isInverseAt root start pos = true
 
-/-- a backslash directly followed by `.` or `]` -/
-def hasBackslashDot : Str → Bool
-  | [] => false
-  | c :: r => (c == '\\' && (r.head? == some '.' || r.head? == some ']')) || hasBackslashDot r
-
 def endsWithBackslash (s : Str) : Bool := s.getLast? == some '\\'
 
 /-- names on the way from the root to `pos` that `fq_name` emits (children of mappings) can be
@@ -42,7 +37,7 @@ def addressableFrom : Node → Pos → Bool
     | none => false
     | some c =>
       (k != .map ||
-        (!c.name.isEmpty && !hasBackslashDot c.name && (p.isEmpty || !endsWithBackslash c.name)))
+        (!c.name.isEmpty && (p.isEmpty || !endsWithBackslash c.name)))
       && addressableFrom c p
 
 def addressable (root : Node) (pos : Pos) : Bool := addressableFrom root pos
